@@ -4,4 +4,8 @@ CONSTANTS
   MaxLen = 12
   ChunkLens = {1, 2, 3, 4, 5}
   Deltas = {1, 2, 3, 4, 5, 6}
-INVARIANTS TypeOK SuccessIdentical MismatchFails NeverPartial HonestSucceeds CorruptFails
+  MaxXfers = 1
+  Servers = {"cl", "nocl", "flushed", "close", "clsrc", "redirect"}
+  Musts = {FALSE, TRUE}
+  ResetOnRefusal = TRUE
+INVARIANTS TypeOK SuccessIdentical MismatchFails NeverPartial HonestSucceeds CorruptFails IdleAfterFinalize IdleWhenContinuing PlacedIsSuccess
